@@ -139,9 +139,13 @@ def evaluate(ctx, cases):
     # C10_amplitude, C14_fit_is_pipeline) against the whole table of compute_features(burst_method='cycles')
     pipe_reqs, pidx = [], []
     for i, (c, p, r) in enumerate(zip(cases, pre, impl)):
-        if p is None or 'df' not in r or c['method'] != 'cycles' or r['n'] == 0: continue
-        rq = implutil.pipeline_request(proto.hex2arr(c['sig']), c['fs'], c['f_range'], c['center'], c['fk'], c['boundary'], c['pad'], c['th'])
+        if p is None or 'df' not in r or r['n'] == 0: continue
+        rq = implutil.pipeline_request(proto.hex2arr(c['sig']), c['fs'], c['f_range'], c['center'], c['fk'], c['boundary'], c['pad'], c['th'] if c['method'] == 'cycles' else {})
         if rq is None: continue
+        if c['method'] == 'amp':
+            # the amplitude method's composed model (pipelineAmp): its SAMPLE columns do not depend on the detector, which is given an empty mask here
+            parts = rq.split(' ')
+            rq = 'pipelineamp.model ' + ' '.join(parts[1:7]) + ' None None None %s 1' % proto.enc_bits([False] * len(proto.hex2arr(c['sig'])))
         pipe_reqs.append(rq); pidx.append(i)
     pipe = dict(zip(pidx, proto.run_driver(pipe_reqs)))
     out = []
@@ -185,11 +189,17 @@ def evaluate(ctx, cases):
             if i in pipe and corr_ok:
                 # C01's projection of the composed model is the SAMPLE columns (a break there is a correspondence break of C01); how the other projections fare is
                 # recorded in the evidence - they are the correspondence of C04 (shape), C05 (burst features), C06 (labels), whose checks make the same comparison
-                pj = implutil.pipeline_projections(pipe[i], r['df'], c['center'], c['th'])
-                if pj['samples'] is not None:
-                    corr_ok = False; info['pipeline'] = pj['samples']
-                for k_, v_ in pj.items():
-                    ctx.hist('pipeline ' + k_, 'agrees' if v_ is None else ('float tie' if v_.startswith('tie:') else 'differs'))
+                if c['method'] == 'amp':
+                    pa = pipe[i]
+                    same = isinstance(pa, list) and pa and pa[0] == 'ok' and pa[1] == [[str(v) for v in row] for row in r['rows']]
+                    if not same: corr_ok = False; info['pipeline'] = 'sample columns differ from the composed model (pipelineAmp): %r' % (pa[:1] if isinstance(pa, list) else pa,)
+                    ctx.hist('pipeline samples (amp)', 'agrees' if same else 'differs')
+                else:
+                    pj = implutil.pipeline_projections(pipe[i], r['df'], c['center'], c['th'])
+                    if pj['samples'] is not None:
+                        corr_ok = False; info['pipeline'] = pj['samples']
+                    for k_, v_ in pj.items():
+                        ctx.hist('pipeline ' + k_, 'agrees' if v_ is None else ('float tie' if v_.startswith('tie:') else 'differs'))
             ctx.hist('outcome', 'table')
         ctx.hist('options', '%s/%s/%s' % (c['center'], c['method'], 'n_seconds' if c['fk'] and 'n_seconds' in c['fk'] else 'n_cycles')); ctx.hist('presentation', (c.get('pres') or 'array') + ('+numpy scalar options' if c.get('npopt') else ''))
         out.append(Result(c, judge_ok=judge_ok, corr_ok=corr_ok, sig=key, nontrivial=('rows' in r and r['n'] >= 2), float_tie=tie, info=info))
